@@ -63,6 +63,7 @@ package base32
 //@   requires len(src) <= (1<<63-5)/8
 //@   requires len(dst) >= (len(src)*8+4)/5
 //@   ensures  n == (len(src)*8+4)/5
+//@   ensures  forall(k, 0, n, dst[k] < 32)
 //@   ensures  forall(g, 0, len(src)/5, forall(m, 0, 8, dst[8*g+m] == symat(src, g, m)))
 //@   ensures  forall(m, 0, 8, implies(8*(len(src)/5)+m < n, dst[8*(len(src)/5)+m] == symat(src, len(src)/5, m)))
 //@   modifies dst[0:(len(src)*8+4)/5]
@@ -71,6 +72,7 @@ package base32
 //@   loop 1 invariant len(src) == len(old(src)) - off(src) && len(dst) == len(old(dst)) - off(dst) && cap(dst) == cap(old(dst)) - off(dst)
 //@   loop 1 invariant n == (len(old(src))*8+4)/5
 //@   loop 1 invariant forall(g, 0, off(src)/5, forall(m, 0, 8, old(dst)[8*g+m] == symat(old(src), g, m)))
+//@   loop 1 invariant forall(k, 0, off(dst), old(dst)[k] < 32)
 //@   loop 1 invariant forall(k, off(dst), cap(old(dst)), old(dst)[k] == old(dst[k]))
 
 //@ func Decode(dst []byte, src []uint8) (n int, err error)
